@@ -42,11 +42,15 @@ def is_alias_ix(ix):
 def is_sel_ix(ix):
     """Index forms for which the library returns a lazily selected array (pending view)."""
     t = ix[0]
-    if t in ("sl", "list", "arr", "mask"):
+    if t in ("sl", "list", "arr", "mask", "blist"):
         return True
-    if t == "tup" and len(ix) == 3:
-        r, c = ix[1], ix[2]
-        return r[0] in ("sl", "list", "arr", "mask", "ell") and c[0] in ("sl", "ell")
+    if t == "tup":
+        parts = ix[1:]
+        if len(parts) == 3:      # a[rows, ..., cols]: the library drops the Ellipsis
+            parts = [p for p in parts if p[0] != "ell"]
+        if len(parts) == 2:
+            r, c = parts
+            return r[0] in ("sl", "list", "arr", "mask", "blist", "ell") and c[0] in ("sl", "ell")
     return False
 
 
